@@ -94,8 +94,8 @@ Print Assumptions c14_jar_after_logout.
 Theorem c14_jar_after_logout_same_path : forall cfg ings e steps dt q f mp trust now u,
   parse_ingresses_full cfg = Some ings -> e_cfg e = cfg -> e_ingresses e = ings ->
   (cf_sso_server cfg = true \/
-   Forall (fun s => eff_path (matching_path (e_paths e) (q_path (snd (fst s)))) = eff_path mp) steps /\
-   eff_path (matching_path (e_paths e) (q_path q)) = eff_path mp) ->
+   Forall (fun s => eff_path (e_mp e (q_path (snd (fst s)))) = eff_path mp) steps /\
+   eff_path (e_mp e (q_path q)) = eff_path mp) ->
   q_ep q = EpLogout \/ q_ep q = EpLogoutLocal \/ q_ep q = EpFrontChannel ->
   let b0 := sleep (run_jar_seq e {| b_jar := []; b_now := 0; b_session := false |} steps) dt in
   rs_kind (fst (do_request e b0 q f)) = CrOther ->
@@ -144,7 +144,7 @@ Definition nested_cfg : kconfig :=
   {| cf_secure := true; cf_samesite := b "Lax"; cf_prefix := b "io.nais.wonderwall";
      cf_ingresses := [b "https://h.example.com"; b "https://h.example.com/app"];
      cf_sso_server := false; cf_sso_domain := []; cf_sso_name := []; cf_legacy := false;
-     cf_rl_enabled := true; cf_rl_logins := 5; cf_rl_window := 5000000000 |}.
+     cf_rl_enabled := true; cf_rl_logins := 5; cf_rl_window := 5000000000; cf_seg_prefix := true; cf_rl_ceil := true |}.
 
 Definition env_of (c : kconfig) (host : string) : site_env :=
   {| e_cfg := c; e_ingresses := match parse_ingresses_full c with Some l => l | None => [] end;
@@ -173,7 +173,7 @@ Definition single_cfg : kconfig :=
   {| cf_secure := true; cf_samesite := b "Lax"; cf_prefix := b "io.nais.wonderwall";
      cf_ingresses := [b "https://h.example.com/app"];
      cf_sso_server := false; cf_sso_domain := []; cf_sso_name := []; cf_legacy := false;
-     cf_rl_enabled := true; cf_rl_logins := 5; cf_rl_window := 5000000000 |}.
+     cf_rl_enabled := true; cf_rl_logins := 5; cf_rl_window := 5000000000; cf_seg_prefix := true; cf_rl_ceil := true |}.
 
 Example c14_nonvacuous :
   let e := env_of single_cfg "h.example.com" in
@@ -200,7 +200,7 @@ Qed.
 Example c14_validate_nonvacuous :
   let cfg := fun ing => {| cf_secure := false; cf_samesite := b "Lax"; cf_prefix := b "p"; cf_ingresses := [b ing];
                            cf_sso_server := false; cf_sso_domain := []; cf_sso_name := []; cf_legacy := false;
-                           cf_rl_enabled := true; cf_rl_logins := 5; cf_rl_window := 5000000000 |} in
+                           cf_rl_enabled := true; cf_rl_logins := 5; cf_rl_window := 5000000000; cf_seg_prefix := true; cf_rl_ceil := true |} in
   validate_cookie (cfg "http://LocalHost:8080/app"%string) = VOk /\
   validate_cookie (cfg "http://app.example.com"%string) = VReject /\
   validate_cookie (cfg "https://localhost"%string) = VReject /\
